@@ -111,6 +111,14 @@ VARIANTS.append(("quad", "leggauss", "pure", "large"))
 #   debug   : every event inside xitorch.enable_debug() (the debug-mode pre-checks and wrappers run)
 for _fn, _m in list(VARY_FIRST.items()) + [("solve_ivp", "rk45"), ("solve_ivp", "rk23"), ("rootfinder", "newton")]:
     VARIANTS.append((_fn, _m, {"solve": "mfree", "symeig": "mfree", "svd": "mfree"}.get(_fn, "edmod"), "debug"))
+#   zeroB   : solve with an exactly zero right-hand side (the shortcut that answers X = 0 without iterating)
+#   jacA    : solve whose operator A is ONE long-lived Jacobian operator (xitorch.grad.jac of an EditableModule
+#             method) created before the baseline census: whatever a call or its backward pass allocates must not
+#             stay reachable through that operator afterwards
+for _m in ("cg", "bicgstab", "gmres", "custom_exactsolve"):
+    VARIANTS.append(("solve", _m, "mfree", "zeroB"))
+for _m in ("bicgstab", "gmres", "custom_exactsolve"):
+    VARIANTS.append(("solve", _m, "mfree", "jacA"))
 VARIANTS.append(("symeig", "davidson", "mfree", "raises"))
 VARIANTS.append(("symeig", "davidson", "dense", "raises"))
 
@@ -198,6 +206,32 @@ class World:
             sc = self.sc
             sc.ts = sc.ts.detach().clone().requires_grad_()
             sc.leaves = list(sc.leaves) + [sc.ts]
+        elif var == "zeroB":
+            sc = self.sc
+            sc.B = torch.zeros_like(sc.B).requires_grad_()
+            sc.leaves = [sc.a, sc.B]
+        elif var == "jacA":
+            import xitorch
+            import xitorch.grad
+            sc = self.sc
+            n_ = sc.B.shape[0]
+            Wm = (torch.eye(n_, dtype=sc.a.dtype) * 2.0 + 0.3 * torch.cos(torch.arange(n_ * n_, dtype=sc.a.dtype)
+                                                                            ).reshape(n_, n_)).requires_grad_()
+
+            class _Res(xitorch.EditableModule):
+                def __init__(self, w):
+                    self.w = w
+
+                def f(self, y):
+                    return self.w @ y + 0.2 * torch.tanh(y)
+
+                def getparamnames(self, methodname, prefix=""):
+                    return [prefix + "w"]
+            self._res = _Res(Wm)
+            self._y0 = torch.linspace(-0.4, 0.6, n_, dtype=sc.a.dtype).requires_grad_()
+            self._J = xitorch.grad.jac(self._res.f, (self._y0,), idxs=0)
+            sc.op = lambda: self._J
+            sc.leaves = [Wm, sc.B]
         elif var == "raises":
             sc = self.sc
             n = 8
